@@ -80,8 +80,9 @@ var c20OpNames = []string{
 	"Resolve(regexp('a','(')) fails", "Resolve(missing!.a1.a2...a100) fails", "Resolve(x(1)) fails",
 	"Resolve(__t)", "SetThisValue(__t,3)", "SetThis(fresh {__t:4,___u:5})", "Resolve([__t, this.___u, ___u, this.__t])",
 	"Resolve($e = [])", "Resolve([$e, $a])",
-	"SetThisValue(max,6)", "Resolve([this.max, this.x, max(1, 2)])", "Resolve(x ? $a = 5 : null, $a)", "Resolve((x ? null : ($a = 6)), $a)",
+	"SetThisValue(max,6)", "Resolve([this.max, this.x, max(1, 2), Max, True, Len, X])", "Resolve(x ? $a = 5 : null, $a)", "Resolve((x ? null : ($a = 6)), $a)",
 	"Resolve([$a === 9, $a === 2, $a === 1, x === 2, x === 1])", "Resolve($a = ($a ?? 0) + 1, ... 40 times ..., $a)",
+	"Resolve($a = x ? 5 : 6)",
 }
 
 var c20Counting = strings.Repeat("$a = ($a ?? 0) + 1, ", 40) + "$a"
@@ -97,8 +98,8 @@ var c20DeepChain = func() string {
 var c20Formulas = map[int]string{9: "x", 10: "$a", 11: "$a = x", 12: "$a = 2", 13: "$b = $a", 14: "[$a,$b,x]", 15: "this.x", 16: "this",
 	22: "$a = 7 / 3", 23: "($a ?? 1) * 3", 24: "$a = 9007199254740993", 25: "($a ?? 0) - 9007199254740992", 26: "$a = ($b = 2)", 27: "$a = 2.75", 28: "len(left('abcdef', $a ?? 1))",
 	29: "regexp('a','(')", 30: c20DeepChain, 31: "x(1)", 32: "__t", 35: "[__t, this.___u, ___u, this.__t]", 36: "$e = []", 37: "[$e, $a]",
-	39: "[this.max, this.x, max(1, 2)]", 40: "x ? $a = 5 : null, $a", 41: "(x ? null : ($a = 6)), $a",
-	42: "[$a === 9, $a === 2, $a === 1, x === 2, x === 1]", 43: c20Counting}
+	39: "[this.max, this.x, max(1, 2), Max, True, Len, X]", 40: "x ? $a = 5 : null, $a", 41: "(x ? null : ($a = 6)), $a",
+	42: "[$a === 9, $a === 2, $a === 1, x === 2, x === 1]", 43: c20Counting, 44: "$a = x ? 5 : 6"}
 
 // exact values behind the canonical strings of the model (numbers only)
 var c20Decs = map[string]ref.Dec{}
@@ -249,7 +250,7 @@ func (w *c20World) apply(op int) *eng.Fail {
 		// a data entry spelled like a builtin: `this.max` is that entry, `max(...)` the builtin
 		w.r.SetThisValue("max", 6.0)
 		w.ensure()["max"] = canonImpl(6.0)
-	case op >= 9 && op <= 16, op >= 22 && op <= 28, op == 32, op == 35, op == 36, op == 37, op >= 39 && op <= 43:
+	case op >= 9 && op <= 16, op >= 22 && op <= 28, op == 32, op == 35, op == 36, op == 37, op >= 39 && op <= 44:
 		src := c20Formulas[op]
 		p, err := cachedParse(src)
 		if err != nil {
@@ -343,7 +344,8 @@ func (w *c20World) apply(op int) *eng.Fail {
 		case 35:
 			want = "[" + get(m, "__t") + "," + get(m, "___u") + "," + get(m, "___u") + "," + get(m, "__t") + "]"
 		case 39:
-			want = "[" + get(m, "max") + "," + get(m, "x") + ",n2]"
+			// (names that differ from a builtin, a keyword or a data key only in case are other names: not set here)
+			want = "[" + get(m, "max") + "," + get(m, "x") + ",n2,null,null,null,null]"
 		case 40:
 			// a statement-like conditional left of a comma: its branch runs, the other does not
 			if get(m, "x") != "null" {
@@ -375,6 +377,13 @@ func (w *c20World) apply(op int) *eng.Fail {
 				return eng.F("C20/resolve", "%s = %s, model says %s ($a is %s, x is %s)", name, got, exp, get(m, "$a"), get(m, "x"))
 			}
 			want = canonImpl(o.val)
+		case 44:
+			// the value of the assignment is the whole conditional
+			want = "n6"
+			if get(m, "x") != "null" {
+				want = "n5"
+			}
+			w.ensure()["$a"] = want
 		case 43:
 			// forty statements in one sequence, each evaluated once, in order
 			if v := get(m, "$a"); v != "null" && !strings.HasPrefix(v, "n") {
